@@ -195,9 +195,11 @@ pub fn run(args: &Args) {
                     let reps = if rng.chance(1, 4) { 2 } else { 1 };
                     for _ in 0..reps {
                         let before = e.clone();
-                        let t0 = Times::now();
+                        // the clock is read independently of the library (whole seconds, rounded down)
+                        let clock = || chrono::DateTime::from_timestamp(chrono::Utc::now().timestamp(), 0).unwrap().naive_utc();
+                        let t0 = clock();
                         let flag = e.update_history();
-                        let t1 = Times::now();
+                        let t1 = clock();
                         flags.push(flag.to_string());
                         let now = match (flag, e.times.get_last_modification()) {
                             (true, Some(t)) => {
